@@ -1,6 +1,7 @@
 #![allow(dead_code)]
 mod base;
 mod c01;
+mod client;
 mod mem;
 mod util;
 
@@ -13,6 +14,7 @@ fn main() {
     let rest = &args[2..].to_vec();
     match args[1].as_str() {
         "c01" => c01::run(rest),
+        "client" => client::run(rest),
         x => {
             eprintln!("unknown command {x}");
             std::process::exit(2);
